@@ -184,3 +184,65 @@ PLANS['C06'] = dict(
          'distinct = distinct (flavour, op sequence, final base lists).',
     assumptions=_REG_ASSUME + ['registry base lists are kept C3-consistent (a mirrored Python class graph refuses the others)'],
 )
+
+
+def _c12_jobs(tier):
+    seeds = [0, 1] if tier == 'quick' else [0, 1, 2, 12345, 987654321, 'random']
+    shards, cases = (2, 25) if tier == 'quick' else (4, 150)
+    out = []
+    for m in ('py', 'c'):
+        for hs in seeds:
+            out.append(dict(mode=m, shards=shards, cases=cases, cfgname='hash%s' % hs, hashseed=hs,
+                            mode_independent_rng=True))
+    return out
+
+
+def _c12_cross(results, counters):
+    """sorted() renderings of the same world must be byte-identical across
+    implementations and hash seeds."""
+    by_case = {}
+    for r in results:
+        for k, d in (r.get('extra', {}).get('digests', {}) or {}).items():
+            by_case.setdefault(k, []).append((r['job'], d))
+    out = []
+    n = 0
+    for k, lst in sorted(by_case.items()):
+        n += 1
+        if len({d for _, d in lst}) > 1:
+            j = lst[0][0]
+            out.append((j, {'kind': 'sorted-differs-across-processes', 'mechanism': None, 'case': int(k.split('/')[1]),
+                            'detail': {'case': k, 'digests': [(jj['mode'], jj.get('cfgname'), d) for jj, d in lst]}}))
+    counters['cross_process_collections_compared'] = n
+    counters['processes_per_collection'] = max([len(v) for v in by_case.values()] or [0])
+    return out[:5]
+
+
+PLANS['C12'] = dict(
+    engine='order', level='exploration', jobs=_c12_jobs, cross_check=_c12_cross,
+    minimums=lambda t: {'pairs[II]': 3000, 'pairs[IS]': 500, 'pairs[SS]': 200, 'equal_key_distinct_pairs': 100,
+                        'triples': 3000, 'foreign_pairs': 500, 'cross_process_collections_compared': 40,
+                        'processes_per_collection': 4},
+    rule='Pools of interfaces over a string pool (empty, equal, prefix-related, case variants, non-ASCII, combining), equal-keyed '
+         'twins, class specifications (same qualified names, key colliding with an interface), None and foreign objects; all ordered '
+         'pairs x six operators against tuple comparison of (__name__, __module__), reflection, hash consistency, sampled triples '
+         '(transitivity, trichotomy), sorted() == stable sort by key; the rendered sorted result of the same seeded world is compared '
+         'across py/c and PYTHONHASHSEED values run in separate processes.  Non-trivial pair: equal names or equal modules or mixed '
+         'kinds; distinct = distinct (kinds, name-equal, module-equal, key order) classes.',
+    assumptions=['equality of a class specification with an equal-keyed interface is not fixed by the statement and not checked'],
+)
+
+
+PLANS['C13'] = dict(
+    engine='pickling', level='exploration', jobs=lambda tier: both(tier, (2, 12), (8, 150)),
+    minimums=lambda t: {'evaluations': 3000, 'cross_process_loads': 1000, 'roundtrips[class-spec:only]': 20,
+                        'roundtrips[class-spec:only_after]': 20, 'roundtrips[class-spec:narrow_then_extend]': 20,
+                        'roundtrips[class-provides:provider]': 20, 'roundtrips[instance-provides:nolonger]': 10},
+    rule='Generated module files (interfaces with sentinel attribute names/docstrings; classes in every declaration shape: '
+         'plain, decorated, implementer_only, classImplementsOnly after the fact, classImplementsFirst, narrowed-then-extended, '
+         'provider) imported under unique names; every interface, class specification, class provides-declaration, instance '
+         'provides-declaration (direct/also/after noLongerProvides) and carrier instance is round-tripped through pickle protocols '
+         '0-5 in-process (identity / same interfaces, equality and hash where identity is obtained, opcodes and sentinels inspected) '
+         'and the bytes are unpickled again in a second process that imports the same module.  Every case is non-trivial; distinct = '
+         'distinct multisets of class declaration shapes.',
+    assumptions=['a non-identical provides-declaration is compared by the interfaces it provides (declarations have identity equality by design)'],
+)
